@@ -24,7 +24,8 @@ Definition ex_env : env :=
      e_title_of := fun f => f + 1000;
      e_open_w := fun _ => Ok tt;
      e_default_pdffit := [("scale", 1); ("spcgr", 2)];
-     e_default_cell := 1 |}.
+     e_default_cell := 1;
+     e_new_lattice := 900 |}.
 (* a PDFFitStructure that has been used: one atom, own lattice, a title, a changed scale *)
 Definition ex_prior : obj :=
   {| o_cls := CPDFFit;
@@ -70,6 +71,32 @@ Proof. eexists; vm_compute; split; reflexivity. Qed.
 (* and a successful write replaces the content of that file only *)
 Example ex_write_success_run : exists fr', run_write ex_env ex_bad (frame_of ex_prior ex_fs 301) = Done fr' /\ f_fs fr' = [(5, 5); (6, 2)].
 Proof. eexists; vm_compute; split; reflexivity. Qed.
+
+(* the parser hands back None (P_cif on CIF text without atom sites): the used object ends up exactly
+   like a new one - no atoms, default cell, title from the file name, default pdffit *)
+Definition none_parser : parser :=
+  {| ps_parse := fun _ => {| po_result := Ok None; po_sg := None |};
+     ps_parsefile := fun _ _ => {| po_result := Ok None; po_sg := None |};
+     ps_tostring := fun _ _ => Raise 77 |}.
+Definition none_env : env :=
+  {| e_getparser := fun _ => Ok none_parser; e_title_of := fun f => f + 1000; e_open_w := fun _ => Ok tt;
+     e_default_pdffit := [("scale", 1); ("spcgr", 2)]; e_default_cell := 1; e_new_lattice := 900 |}.
+Example ex_none_result_run : exists fr fr',
+  run_read none_env ex_good CPDFFit ReadFile (frame_of ex_prior ex_fs 200) = Done fr /\
+  run_read none_env ex_good CPDFFit ReadFile (frame_of (fresh none_env CPDFFit 300) ex_fs 301) = Done fr' /\
+  observe (observed_names (effective none_env None)) (f_self fr)
+    = {| ob_cls := CPDFFit; ob_payloads := [];
+         ob_attrs := [Some (VStr 1006); Some (VDict [("scale", 1); ("spcgr", 2)]); None; Some (VLat 0 1); Some (VLat 0 1)] |} /\
+  observe (observed_names (effective none_env None)) (f_self fr') = observe (observed_names (effective none_env None)) (f_self fr).
+Proof. eexists. eexists. split; [vm_compute; reflexivity|]. split; [vm_compute; reflexivity|]. split; vm_compute; reflexivity. Qed.
+(* without the None handling the target keeps its atoms and lattice *)
+Definition no_none_handling_readstr : list effect :=
+  [ EGetParser; EParse; EDropInst "title"; EDropInst "pdffit"; EDropInst "xcfg"; EInitSelf;
+    EGuardParsed EUpdateDict; EGuardParsed ESetAllItems; EReturnParser ].
+Example no_none_handling_refuted :
+  match run0 none_env ex_good no_none_handling_readstr (frame_of ex_prior ex_fs 200) with
+  | Done fr => ob_payloads (observe [] (f_self fr)) | Failed _ _ => [] end = [5].
+Proof. vm_compute; reflexivity. Qed.
 
 (* ---------- teeth ---------- *)
 (* statement order of readStr before the repair of D11 (no reset of the instance title / pdffit):
